@@ -284,6 +284,20 @@ struct PollFlag<F> {
     f: F,
 }
 
+impl<F> Drop for PollFlag<F> {
+    fn drop(&mut self) {
+        // runs before the wrapped future itself is destroyed: from here on the operation counts as dropped
+        // (destroying a future_sync future releases its queue slot, which lets later operations start at once)
+        self.w.with(|i| {
+            let o = &mut i.ops[self.op];
+            o.fut_dropped = true;
+            if o.start == 0 {
+                o.cancelled = true;
+            }
+        });
+    }
+}
+
 impl<F: Future + Unpin> Future for PollFlag<F> {
     type Output = F::Output;
     fn poll(self: Pin<&mut Self>, cx: &mut Context<'_>) -> Poll<F::Output> {
@@ -1483,8 +1497,10 @@ fn root_main(w: Arc<World>) {
                     for g in 0..case.cfg.gates as usize {
                         w.open_gate(g);
                     }
-                    w.with(|i| i.root_stage = "before despawn: wait for quiescence".to_string());
-                    rt::wait_quiescent();
+                    if !case.cfg.despawn_without_quiescence {
+                        w.with(|i| i.root_stage = "before despawn: wait for quiescence".to_string());
+                        rt::wait_quiescent();
+                    }
                     w.with(|i| i.root_stage = "despawn_threads_if_overloaded".to_string());
                     sched.despawn_threads_if_overloaded();
                     let (live, max) = (rt::live_named(POOL_THREAD_NAME), sched_max(&w));
